@@ -110,6 +110,12 @@ def Satisfied (p : Params) (segs : List Seg) (sol : Sol) : Prop :=
     (s.fixed = false → ∀ l, s.minLim = some l → absR (sol.cl i - l) ≤ p.tol) ∧
     (s.fixed = false → ∀ l, s.maxLim = some l → absR (sol.cr i - l) ≤ p.tol)
 
+/-- executable form of `Cons.holds` (used by the driver on the positions found in displayRoute()) -/
+def Cons.holdsB (sol : Sol) : Cons → Bool
+  | .sep j i gap eq => if eq then decide (sol.x j + gap = sol.x i) else decide (sol.x j + gap ≤ sol.x i)
+  | .lower i _ => decide (sol.cl i ≤ sol.x i)
+  | .upper i _ => decide (sol.x i ≤ sol.cr i)
+
 /-- `updatePositionsFromSolver`: `max(newPos, minSpaceLimit)` then `min(·, maxSpaceLimit)` -/
 def clamp (s : Seg) (v : Rat) : Rat :=
   let v1 := match s.minLim with | some l => max v l | none => v
